@@ -1,6 +1,7 @@
 package main
 
 import (
+	"math/big"
 	"bytes"
 	"flag"
 	"fmt"
@@ -73,10 +74,33 @@ func fuzzInputs(target string, rng *rand.Rand, deep bool) [][]byte {
 	case "ImportKeys":
 		seeds = append(seeds, []byte(fmt.Sprintf("(privkeys\n (account\n(name \"a@b\")\n(protocol prpl-jabber)\n(private-key \n (dsa \n  (p #%X#)\n  (q #%X#)\n  (g #%X#)\n  (y #%X#)\n  (x #%X#)\n  )\n )\n )\n)\n", priv.PrivateKey.P, priv.PrivateKey.Q, priv.PrivateKey.G, priv.PrivateKey.Y, priv.PrivateKey.X)),
 			[]byte("(privkeys (account (name x) (protocol y) (private-key (dsa (p #01#) (q #02#)))))"), []byte("(privkeys ("), []byte("(privkeys (account (name \"unterminated"))
+		// every number of the key in turn zero, empty, and one
+		for i := 0; i < 5; i++ {
+			for _, z := range []string{"#00#", "##", "#01#", "#0#"} {
+				f := []string{fmt.Sprintf("#%X#", priv.PrivateKey.P), fmt.Sprintf("#%X#", priv.PrivateKey.Q), fmt.Sprintf("#%X#", priv.PrivateKey.G), fmt.Sprintf("#%X#", priv.PrivateKey.Y), fmt.Sprintf("#%X#", priv.PrivateKey.X)}
+				f[i] = z
+				seeds = append(seeds, []byte(fmt.Sprintf("(privkeys (account (name \"a@b\") (protocol prpl-jabber) (private-key (dsa (p %s) (q %s) (g %s) (y %s) (x %s)))))", f[0], f[1], f[2], f[3], f[4])))
+			}
+		}
 	case "ParsePublicKey":
 		seeds = append(seeds, rpriv.Pub().Bytes())
+		for i := 0; i < 4; i++ {
+			for _, z := range []*big.Int{big.NewInt(0), big.NewInt(1)} {
+				f := []*big.Int{priv.PrivateKey.P, priv.PrivateKey.Q, priv.PrivateKey.G, priv.PrivateKey.Y}
+				f[i] = z
+				seeds = append(seeds, ref.PutMPI(ref.PutMPI(ref.PutMPI(ref.PutMPI([]byte{0, 0}, f[0]), f[1]), f[2]), f[3]))
+			}
+		}
 	case "ParsePrivateKey":
 		seeds = append(seeds, priv.Serialize())
+		// every number of the key in turn zero (an integer of length zero on the wire) and one
+		for i := 0; i < 5; i++ {
+			for _, z := range []*big.Int{big.NewInt(0), big.NewInt(1)} {
+				f := []*big.Int{priv.PrivateKey.P, priv.PrivateKey.Q, priv.PrivateKey.G, priv.PrivateKey.Y, priv.PrivateKey.X}
+				f[i] = z
+				seeds = append(seeds, ref.PutMPI(ref.PutMPI(ref.PutMPI(ref.PutMPI(ref.PutMPI([]byte{0, 0}, f[0]), f[1]), f[2]), f[3]), f[4]))
+			}
+		}
 	case "ExtractMPIs":
 		seeds = append(seeds, ref.PutMPI(ref.PutMPI(ref.PutWord(nil, 2), ref.P), ref.Q), ref.PutWord(nil, 0x10000000), ref.PutWord(nil, 0xffffffff))
 	case "ExtractMPI", "ExtractData":
